@@ -15,6 +15,7 @@ import z3
 from verifx import symx, loader
 from verifx.harness import Obligation
 from verifx.symx import frac_of
+from . import common
 
 PROPERTY = 'C16'
 LEVEL = 'model_checking'
@@ -28,7 +29,13 @@ ASSUMPTIONS = [
     'np.round half-even, ndarray.astype("i") truncation toward zero, NaN -> '
     'INT_MIN; numpy.ma.masked_invalid masks NaN only (reals are finite)',
     'warnings are observed through the library warn() hook',
-    'netCDF4.date2num (time2idx front end) is outside the claim (C extension)',
+    'datetime front ends (date2num/time2idx): netCDF4.date2num (C extension) '
+    'is replaced by its reference meaning (t - reference)/unit on the '
+    'symbolic datetime model, aware values converted to UTC; standard '
+    'calendar, reference 2000-01-01, units days/hours/minutes/seconds, whole '
+    'seconds in 1999..2001, UTC offsets of whole minutes; the coordinate is '
+    'concrete there (the lookup itself is claimed by the val2idx '
+    'obligations); time2t is not encoded',
     'bounds variable absent + method=bounds: claims are made only for values '
     'between the outer centres or beyond the half-spacing-extrapolated outer '
     'edges (the cell edges are not defined by the file in between)',
@@ -345,6 +352,197 @@ class Val2Idx(Obligation):
                 viol[p + 'exact'] = 'index %r for non-equal value' % (r,)
 
 
+# --------------------------------------------------------------------------
+# datetime front ends: date2num / time2idx
+# --------------------------------------------------------------------------
+REF = (2000, 1, 1)
+
+
+def _ratio(num, c):
+    """exact rational num/c (num: z3 Int expression or int)"""
+    e = num if z3.is_expr(num) else z3.IntVal(int(num))
+    return symx.SymReal(z3.ToReal(e) / c, (e, c))
+UNITS = {'hours': 3600, 'minutes': 60, 'seconds': 1, 'days': 86400}
+
+
+class TimeLookup(Obligation):
+    """date2num / time2idx with naive and timezone-aware datetimes: the
+    number handed to val2idx is (instant in UTC - reference)/unit for every
+    instant and every UTC offset, so an aware datetime and the naive UTC
+    datetime of the same instant select the same index"""
+    mode = 'real'
+    validate_paths = 4
+    stubs = ('datetime (symdatetime)',
+             'netCDF4.date2num (reference: (t - ref)/unit, aware values '
+             'converted to UTC as cftime documents)',
+             'numpy.interp (documented definition)', 'pncwarn.warn (recorder)')
+
+    COORD = (-3, 0.5, 40)
+
+    def __init__(self, unit, kinds, method='nearest'):
+        self.unit, self.kinds, self.method = unit, kinds, method
+        self.name = 'time-lookup[%s,%s,%s]' % (unit, '+'.join(kinds), method)
+        self.bounds = {'coordinate': 'concrete, non-uniform %r' % (
+                           self.COORD,),
+                       'instant': 'any whole second of 1999..2001',
+                       'utc offset': 'any whole minute in (-24h, 24h)'}
+        self._space = None
+
+    def space(self):
+        if self._space is None:
+            from verifx import symdatetime as sd
+            import types
+            self._wr = _WarnRec()
+            pw = types.ModuleType('PseudoNetCDF.pncwarn')
+            pw.warn = self._wr.warn
+            import netCDF4 as _real_nc4
+            nc4 = types.ModuleType('netCDF4')
+            nc4.__dict__.update(_real_nc4.__dict__)
+            U = UNITS[self.unit]
+            ref_us = sd.instant_us(*REF)
+
+            def date2num(times, units, calendar='standard'):
+                assert units.split()[0] == self.unit and \
+                    calendar == 'standard', (units, calendar)
+                out = []
+                for t in list(times):
+                    if t.tzinfo is not None:
+                        t = t.astimezone(sd.timezone.utc).replace(tzinfo=None)
+                    out.append(_ratio(symx._num(t.us)[1] - ref_us,
+                                      U * 10 ** 6))
+                import numpy as np
+                a = np.empty(len(out), dtype=object)
+                a[:] = out
+                return a
+            nc4.date2num = date2num
+            self._space = loader.TwinSpace(stubs={
+                'PseudoNetCDF.pncwarn': pw, 'datetime': sd.make_module(),
+                'netCDF4': nc4})
+            self._space.twin('PseudoNetCDF.core._files')
+        return self._space
+
+    def _file(self, F, cs, obj):
+        f = F()
+        f.createDimension('time', 3)
+        v = f.createVariable('time', 'O' if obj else 'd', ('time',))
+        for i in range(3):
+            v[i] = cs[i]
+        v.units = '%s since %04d-%02d-%02d 00:00:00' % ((self.unit,) + REF)
+        return f
+
+    def sym(self, ctx, h):
+        from verifx import symdatetime as sd
+        sp = self.space()
+        self._wr.msgs = []
+        F = sp.twin('PseudoNetCDF.core._files').PseudoNetCDFFile
+        cs = list(self.COORD)
+        f = self._file(F, cs, True)
+        lo = sd.instant_us(1999, 1, 1) // 10 ** 6
+        hi = sd.instant_us(2001, 12, 31) // 10 ** 6
+        ts, exp = [], []
+        U = UNITS[self.unit]
+        ref_s = sd.instant_us(*REF) // 10 ** 6
+        for k, kind in enumerate(self.kinds):
+            s = ctx.int('s%d' % k, lo, hi)           # UTC instant (seconds)
+            if kind == 'naive':
+                t = sd.datetime._of(s * 10 ** 6, None, s)
+            else:
+                off = ctx.int('off%d' % k, -1439, 1439)   # minutes
+                loc = s + off * 60
+                tz = sd.timezone(sd.timedelta._of(off * 60 * 10 ** 6))
+                t = sd.datetime._of(loc * 10 ** 6, tz, loc)
+            ts.append(t)
+            exp.append(_ratio(symx._num(s)[1] - ref_s, U))
+        import sys
+        sys.setprofile(sp.profile())
+        try:
+            try:
+                num = f.date2num(list(ts), timekey='time')
+            except Exception as ex:
+                h.candidate('date2num-raised:' + type(ex).__name__,
+                            repr(ex)[:200])
+                return
+            for k in range(len(ts)):
+                h.claim('num[%d]' % k, common.eq_expr(num[k], exp[k]))
+            try:
+                got = f.time2idx(list(ts), dim='time', method=self.method,
+                                 bounds='ignore')
+                want = f.val2idx('time', list(exp), method=self.method,
+                                 bounds='ignore')
+            except Exception as ex:
+                h.candidate('time2idx-raised:' + type(ex).__name__,
+                            repr(ex)[:200])
+                return
+        finally:
+            sys.setprofile(None)
+        import numpy as np
+        res = []
+        for k in range(len(ts)):
+            g, w = np.ma.getdata(got)[k], np.ma.getdata(want)[k]
+            gm = bool(np.ma.getmaskarray(got)[k])
+            wm = bool(np.ma.getmaskarray(want)[k])
+            h.claim('idx[%d]' % k, z3.BoolVal(gm == wm and (
+                gm or int(g) == int(w))))
+            res.append('masked' if gm else int(g))
+        h.observe('idx', res)
+
+    def real(self, inputs):
+        import datetime as dt
+        import warnings
+        import numpy as np
+        from fractions import Fraction
+        cs = list(self.COORD)
+        U = UNITS[self.unit]
+        ref = dt.datetime(*REF)
+        ts, exp = [], []
+        for k, kind in enumerate(self.kinds):
+            s = int(frac_of(inputs.get('s%d' % k, 63082281600)))
+            utc = dt.datetime(1, 1, 1) + dt.timedelta(seconds=s)
+            if kind == 'naive':
+                ts.append(utc)
+            else:
+                off = int(frac_of(inputs.get('off%d' % k, 0)))
+                tz = dt.timezone(dt.timedelta(minutes=off))
+                ts.append((utc + dt.timedelta(minutes=off)).replace(
+                    tzinfo=tz))
+            exp.append(Fraction(int((utc - ref).total_seconds()), U))
+        viol = {}
+        obs = {}
+        with warnings.catch_warnings():
+            warnings.simplefilter('ignore')
+            from PseudoNetCDF import PseudoNetCDFFile
+            f = self._file(PseudoNetCDFFile, [float(c) for c in cs], False)
+            try:
+                num = f.date2num(list(ts), timekey='time')
+            except Exception as ex:
+                return {'obs': {}, 'violations': {
+                    'date2num-raised:' + type(ex).__name__: repr(ex)[:200]}}
+            for k in range(len(ts)):
+                if abs(Fraction(float(num[k])) - exp[k]) > Fraction(1, 10 ** 6):
+                    viol['num[%d]' % k] = 'date2num %r, instant is %s %s ' \
+                        'after the reference' % (float(num[k]),
+                                                 float(exp[k]), self.unit)
+            try:
+                got = f.time2idx(list(ts), dim='time', method=self.method,
+                                 bounds='ignore')
+                want = f.val2idx('time', [float(e) for e in exp],
+                                 method=self.method, bounds='ignore')
+            except Exception as ex:
+                viol['time2idx-raised:' + type(ex).__name__] = repr(ex)[:200]
+                return {'obs': {}, 'violations': viol}
+            res = []
+            for k in range(len(ts)):
+                gm = bool(np.ma.getmaskarray(got)[k])
+                wm = bool(np.ma.getmaskarray(want)[k])
+                g, w = np.ma.getdata(got)[k], np.ma.getdata(want)[k]
+                if gm != wm or (not gm and int(g) != int(w)):
+                    viol['idx[%d]' % k] = 'time2idx %r, val2idx of the ' \
+                        'instant %r' % (got.tolist(), want.tolist())
+                res.append('masked' if gm else int(g))
+            obs['idx'] = res
+        return {'obs': obs, 'violations': viol}
+
+
 def obligations(tier):
     obs = []
     ns = (2, 3) if tier == 'quick' else (2, 3, 4, 5)
@@ -369,6 +567,16 @@ def obligations(tier):
         for b, c, lr in [('error', 'none', 'None'), ('warn', 'mask', 'nan')]:
             obs.append(Val2Idx(2 if tier == 'quick' else 3, d, bv, m, b, c,
                                lr, 2))
+    # datetime front ends
+    for unit, kinds in (('hours', ('naive',)), ('hours', ('aware',)),
+                        ('hours', ('naive', 'aware')),
+                        ('minutes', ('aware', 'aware')),
+                        ('days', ('aware',))):
+        obs.append(TimeLookup(unit, kinds))
+    if tier == 'thorough':
+        for unit in ('hours', 'seconds'):
+            for m in ('nearest', 'exact'):
+                obs.append(TimeLookup(unit, ('aware', 'naive', 'aware'), m))
     return obs
 
 
@@ -385,10 +593,14 @@ MANIFEST = {
             'val2idx code is the nearest/containing/equal cell, that '
             'rejection/warning/masking happen as requested and that no '
             'non-existent cell is reported. Not a proof: n is bounded and '
-            'floats are reals.',
+            'floats are reals. Datetime lookups: for every instant (whole '
+            'seconds, 1999-2001) and every UTC offset the real date2num/'
+            'time2idx code hands val2idx the number of units between the '
+            'instant and the reference, for naive, aware and mixed inputs.',
     'note': 'Trusted: z3; the shim definitions of np.interp/np.round/'
             'masked_invalid on symbolic scalars (cross-checked on every path '
             'by replaying one model on real numpy and comparing index, '
             'warning and exception); real numpy for indexing/views. '
-            'date2num/time2idx front ends (netCDF4 C code) are outside.',
+            'netCDF4.date2num itself (C code) is a stub, compared with the '
+            'real one in replay.',
 }
